@@ -145,6 +145,10 @@ def apply(spec, tg, n):
             r3["tz"], r3["hours"] = "Europe/London", [("mon - sun", ["8:00 - 16:00"])]
         _task(spec, "F")["effort"] = max(_task(spec, "F")["effort"], 9600)
         _task(spec, "E")["effort"] = max(_task(spec, "E")["effort"], 6000)
+        # two short high-priority tasks that begin and end ON the switch Sundays, right at the first local working hour after the switch
+        spec["tasks"].append({"id": "swny", "effort": 120, "alloc": ["r4"], "prio": 950, "start": "2025-03-09-13:00"})
+        if not r3.get("shift"):
+            spec["tasks"].append({"id": "swldn", "effort": 120, "alloc": ["r3"], "prio": 950, "start": "2025-03-30-07:00"})
     elif tg == "shutdown":
         # a five-week project vacation in the middle of the window (contains a whole calendar month at some starts)
         spec.setdefault("vacations", []).append((_day(spec, 14), _day(spec, 49)))
